@@ -16,6 +16,12 @@ Lemma ob_placeholders :
   userinfo_placeholder_suffix = b ":xxxxx" /\ base64_prefix = b "data:" /\ base64_placeholder = b "data:xxxxx".
 Proof. vm_compute. repeat split; reflexivity. Qed.
 
+(* readurl.go vs bind/redact.go: every spelling ReadFileOrBase64 takes for inline data is one RedactBase64
+   recognises (same prefix; the reader's test is not more liberal than the redactor's) *)
+Lemma ob_reader_accepts_only_redacted :
+  reader_data_prefix = base64_prefix /\ (reader_prefix_fold = false \/ redact_prefix_fold = true).
+Proof. vm_compute. split; [reflexivity | first [left; reflexivity | right; reflexivity]]. Qed.
+
 (* httplog, describe.go, run.go *)
 Lemma ob_log_url_uses_redacted : log_url_uses_redacted = true.
 Proof. vm_compute. reflexivity. Qed.
